@@ -272,8 +272,20 @@ def hungry(draw, max_nest=40, depth=0):
             out += [P_(bytes([C['OP_DUP'], C['OP_EVAL']])), I('OP_DUP'), I('OP_EVAL')]
         elif k == 'nest' and depth < 2:
             inner = draw(hungry(max_nest, depth + 1))
-            n = draw(st.sampled_from([1, 3, 10, max_nest]))
+            # only the outermost nest may be max_nest deep: the inner program then stays shallow enough to be encoded inside
+            # the strategy without coming near the recursion limit
+            n = draw(st.sampled_from([1, 3, 10, max_nest] if depth == 0 else [1, 3, 10]))
+            # the size of the nest is tracked arithmetically (each wrapper adds at most 10 bytes): encoding a 400-level nest
+            # inside the strategy needs ~1200 Python frames, and whether that fits depends on how deep Hypothesis itself
+            # happens to be - generation must not depend on that (FlakyStrategyDefinition in the thorough tier)
+            try:
+                size = len(R.encode(render.lower(inner)))
+            except R.NotEncodable:
+                size = 70000
             for _ in range(n):
+                if size + 10 > 60000:
+                    break
+                size += 10
                 c = draw(st.sampled_from(['if', 'try', 'loop', 'ife', 'except']))
                 if c == 'if':
                     inner = [I('OP_TRUE'), ['if', inner]]
@@ -285,11 +297,6 @@ def hungry(draw, max_nest=40, depth=0):
                     inner = [I('OP_FALSE'), ['ife', [], inner]]
                 else:
                     inner = [I('OP_TRUE'), ['loop', [I('OP_POP0')] + inner + [I('OP_FALSE')]]]
-                try:
-                    if len(R.encode(render.lower(inner))) > 60000:
-                        break
-                except R.NotEncodable:
-                    break
             out += inner
         elif k == 'mult':
             out += [P_(b'\x7f' * draw(st.sampled_from([8, 64, 512, 1024]))), I('OP_COPY', draw(st.sampled_from([1, 3, 20, 254]))),
@@ -399,7 +406,8 @@ def task_hungry(ctx):
     def one(t):
         prog, lim, mode, cut, trunc = t
         try:
-            script = R.encode(render.lower(prog))
+            with headroom(6000):
+                script = R.encode(render.lower(prog))
         except R.NotEncodable:
             return
         case = {'check': 'run', 'prog': prog, 'limits': list(lim)}
